@@ -74,7 +74,9 @@ func runCase(t *chaingen.Tree, cs Case) outcome {
 		if obs.Panic {
 			o.finding = &storeobs.Finding{Kind: "c02-manager-call-panics", Detail: fmt.Sprintf("%v panicked: %s", op, obs.ErrText), Step: len(nd.Steps)}
 			if p := nd.Rec.Pending; p != nil {
-				if id, ok := p.Diffs.RevisedAndResolved(); ok && strings.Contains(obs.ErrText, "missing file contract expiration") {
+				if id, ok := p.Diffs.RevisedAndResolved(); ok && strings.Contains(obs.Stack, "(*DBStore).ApplyBlock") {
+					// attributed by structure (the block being applied and where the panic was raised),
+					// never by the wording of the panic message
 					o.finding.Kind = storeobs.KindReviseResolve + "-panics"
 					o.finding.Detail = fmt.Sprintf("%v: a consensus-valid block that revises (new window end) and resolves contract %v makes DBStore.ApplyBlock panic: %s", op, id, obs.ErrText)
 				}
